@@ -4,6 +4,10 @@
 open C18_model
 open Conv
 
+(* element names in verdicts: printable ASCII only (a verdict is a token of the line protocol) *)
+let safe_name h =
+  String.map (fun c -> if (c >= 'a' && c <= 'z') || (c >= '0' && c <= '9') || c = '-' then c else '_') (Mlutil.unhex h)
+
 let split c s = if s = "-" || s = "" then [] else String.split_on_char c s
 
 (* "ty:hex" *)
@@ -61,7 +65,7 @@ let tags_verdict tags =
         (match String.split_on_char '.' t with
          | name :: attrs ->
              if tag_inert (str_of_field name) (List.map kv_of attrs) then go rest
-             else "fail:tag-not-inert-" ^ Mlutil.unhex name
+             else "fail:tag-not-inert-" ^ safe_name name
          | [] -> go rest) in
   go (split '|' tags)
 
@@ -102,7 +106,7 @@ let html_verdict rep =
     | r :: rest ->
         if r = "X" then "fail:style-attribute-does-not-rescan"
         else match String.split_on_char ':' r with
-          | "E" :: n :: _ -> "fail:forbidden-element-" ^ Mlutil.unhex n
+          | "E" :: n :: _ -> "fail:forbidden-element-" ^ safe_name n
           | "A" :: n :: _ -> "fail:event-handler-attribute"
           | "J" :: _ -> "fail:script-url"
           | ["S"; ty; v] ->
